@@ -101,6 +101,16 @@ Theorem C15_market_data_of_history : forall h, is_md (irun h) = md_run (market_e
 Proof. exact irun_md. Qed.
 Print Assumptions C15_market_data_of_history.
 
+(** Receive times never matter: re-stamping MarketEvent.time_received in any way (feed latency
+    larger than the gap between events, clock skew with received < exchange, ...) leaves every
+    instrument's market data, price() and position - hence the marked unrealised PnL - unchanged.
+    The marked price depends on the (time_exchange, price / book) history only
+    ([C15_price_latest_wins]). *)
+Theorem C15_received_time_irrelevant : forall h h',
+  same_modulo_received h h' -> srun h = srun h'.
+Proof. exact restamp_invariant. Qed.
+Print Assumptions C15_received_time_irrelevant.
+
 (** Inside the known class the code stores 0, the reference price is the position's entry price
     and the documented estimate there is minus the entry fees: the deviation is exactly the
     (pro-rata) fee of the opening fill, so it vanishes iff that fee is 0. *)
